@@ -117,6 +117,9 @@ func ReadNodeInfoWithoutData(br *bufio.Reader) (cid.Cid, uint64, error) {
 	// Seek to the next section by skipping the block.
 	// The section length includes the CID, so subtract it.
 	remainingSectionLen := int64(sectionLen) - int64(cidLen)
+	if remainingSectionLen < 0 {
+		return cid.Cid{}, 0, fmt.Errorf("malformed car; section length %d is smaller than its CID (%d bytes)", sectionLen, cidLen)
+	}
 
 	_, err = io.CopyN(io.Discard, br, remainingSectionLen)
 	if err != nil {
@@ -140,6 +143,9 @@ func ReadNodeInfoWithData(br *bufio.Reader) (cid.Cid, uint64, []byte, error) {
 	// Seek to the next section by skipping the block.
 	// The section length includes the CID, so subtract it.
 	remainingSectionLen := int64(sectionLen) - int64(cidLen)
+	if remainingSectionLen < 0 {
+		return cid.Cid{}, 0, nil, fmt.Errorf("malformed car; section length %d is smaller than its CID (%d bytes)", sectionLen, cidLen)
+	}
 
 	buf := make([]byte, remainingSectionLen)
 	_, err = io.ReadFull(br, buf)
